@@ -117,7 +117,7 @@ class Explorer:
                                         'spec.c02', 'fpy2.number.context', 'fpy2.transform.path', 'fpy2.transform.cursor', 'fpy2.transform.error',
                                         'fpy2.analysis.format_infer', 'fpy2.number.engine'])
         # stand-in classes for external objects (Python ast nodes) live in spec modules; searched last
-        self.types.default_modules += [m for m in ('spec.c06', 'spec.c07') if index.module(m) is not None]
+        self.types.default_modules += [m for m in ('spec.c06', 'spec.c07', 'spec.c02x') if index.module(m) is not None]
         self.intrinsics = Intrinsics(self)
         self.global_cache = {}
         self.tags = Tags()
